@@ -222,8 +222,12 @@ def r5(ctx):
     idx = ctx.index
     # setReconnect / RECONNECT default flows into run_forever
     fn = idx.func(RF).node
-    ok = any(isinstance(n, ast.If) and "reconnect is None" in text(n.test) and any("RECONNECT" in text(s) for s in n.body) for n in fn.body)
-    ctx.ob(f"{RF}:reconnect-default", ok, "reconnect=None -> module-level RECONNECT", idx.loc(fn))
+    # semantic: with reconnect=None the interval slept out between attempts is the module-level RECONNECT (here set to a marker value)
+    I0, outs0 = run_forever_paths(ctx, reconnect=None, module_reconnect=C(7))
+    slept = [e.args for o in outs0 for e in o.effects if e.name == "sleep"]
+    ok = bool(slept) and all(a and a[0] == C(7) for a in slept)
+    ctx.ob(f"{RF}:reconnect-default", ok, f"reconnect=None -> module-level RECONNECT ({len(slept)} waits of RECONNECT seconds)" if ok else
+           f"reconnect=None with the module default RECONNECT=7: waits between attempts are {sorted({repr(a) for a in slept})[:4]} (none = never reconnects)", idx.loc(fn))
     I, outs = run_forever_paths(ctx, reconnect=0)
     bad = [o for o in outs if [e.name for e in o.effects].count("WebSocket()") > 1 or "sleep" in [e.name for e in o.effects]]
     ctx.ob(f"{RF}:reconnect=0:never-reconnects", not bad and bool(outs), f"{len(outs)} runs, none reconnects" if not bad else
